@@ -29,10 +29,11 @@ const (
 	sDeselected
 	sBetweenGenerations
 	sSelectRejected
+	sClosing // a graceful Close whose courtesy Separate is stalled by the peer: NotConnected, socket still open
 	nSituations
 )
 
-var sitNames = []string{"never-opened", "closed", "connecting", "connected-not-selected", "deselected", "between-generations", "select-rejected"}
+var sitNames = []string{"never-opened", "closed", "connecting", "connected-not-selected", "deselected", "between-generations", "select-rejected", "closing-with-stalled-farewell"}
 
 // send entry points
 const (
@@ -122,6 +123,7 @@ type harness struct {
 	barrierSys    uint32
 	windowOpenAt  time.Duration
 	closedOnce    bool
+	closingData   int
 	reopened      bool
 	finalBarrier  uint32
 	finalBarrierC *refhsms.Conn
@@ -345,6 +347,37 @@ func (h *harness) setup() {
 				h.closedOnce = true
 			})
 			h.when(func() bool { return h.closedOnce }, func() { w.After(time.Millisecond, "window", openWindow) })
+		})
+	case sClosing:
+		r.Open(hsms.OpenBackground)
+		initialSelect(func() {
+			c := h.liveConn()
+			if c == nil {
+				w.Fail("HARNESS", "no live connection")
+
+				return
+			}
+			// the peer stops reading: the courtesy Separate of the graceful Close blocks for its 500 ms
+			// bound, during which the state is already NotConnected while the socket is still open
+			w.Fault("sndfull")
+			c.L.SetCap(8)
+			c.L.Stall(false, 0)
+			w.Go("closer", func() {
+				_ = r.C.Close()
+				h.closedOnce = true
+			})
+			w.After(5*time.Millisecond, "data-during-close", func() {
+				for i := 0; i < 1+w.T.Choose("peer", 3); i++ {
+					hd := refhsms.DataHeader(sc.Session, byte(1+i), byte(1+2*i), i%2 == 0, 0x53000000+uint32(i))
+					c.SendFrame(hd, refhsms.ASCII(fmt.Sprintf("closing%d", i)))
+					h.closingData++
+					w.Probe("data_sent_during_stalled_close")
+				}
+			})
+			h.when(func() bool { return h.closedOnce }, func() {
+				c.L.RST() // the stalled peer end never reads the FIN: it gives the dead socket up itself
+				w.After(time.Millisecond, "window", openWindow)
+			})
 		})
 	case sConnecting:
 		if sc.Active {
@@ -733,7 +766,7 @@ func (h *harness) establish() {
 	switch sc.Sit {
 	case sNeverOpened:
 		r.Open(hsms.OpenBackground)
-	case sClosed:
+	case sClosed, sClosing:
 		w.Go("reopen", func() {
 			if err := r.C.Open(context.Background(), hsms.OpenBackground); err != nil {
 				w.Fail("REOPEN", "Open after Close failed: %v", err)
@@ -897,7 +930,7 @@ func (h *harness) final(reason string) {
 				msg = "DELIVERED_NOT_SELECTED"
 			}
 			w.Fail(msg, "handler %d received %d data messages; %d were pipelined behind the select and none of the %d sent while not Selected may be delivered (%s)",
-				hi, len(got), len(h.pipe), len(h.inb), sitNames[sc.Sit])
+				hi, len(got), len(h.pipe), len(h.inb)+h.closingData, sitNames[sc.Sit])
 
 			return
 		}
